@@ -180,6 +180,9 @@ class Merger:
                     else self.config.set_merge_mode(node_coord)
                     if isinstance(val, CommentedSet)
                     else self.config.aoh_merge_mode(node_coord)
+                    if (isinstance(val, CommentedSeq) and len(val) > 0
+                        and isinstance(val[0], CommentedMap))
+                    else self.config.rule_merge_mode(node_coord)
                 )
                 self.logger.debug("Merger::_merge_dicts:  Got merge mode, {}."
                                   .format(merge_mode))
